@@ -146,6 +146,9 @@ func genC16(r *sim.Rng, i int) *c16Case {
 	}
 	c.Via = r.Pick([]string{"impl", "transport"})
 	c.Mode = r.Pick([]string{"close", "close", "peerclose"})
+	if c.Kind == "standard" && r.Chance(1, 3) {
+		c.Mode = "close-silent" // the peer has stopped reacting when the transport is closed
+	}
 	c.Sub, c.Auth = "shell", "none"
 	if c.Kind == "standard" {
 		c.Sub = r.Pick([]string{"shell", "shell", "netconf"})
@@ -206,6 +209,7 @@ func c16Corpus() []*c16Case {
 		{Kind: "telnet", Via: "transport", Mode: "peerclose", N: 8192, Steps: []c16Step{{Op: "s", B: h(big)}, {Op: "w", B: h(big)}}},
 		{Kind: "telnet", Via: "transport", Mode: "close", N: 64, Initial: h(strings.Repeat("B", 200))},
 		{Kind: "standard", Sub: "shell", Auth: "password", Via: "transport", Mode: "close", N: 8192, Steps: []c16Step{{Op: "s", B: h(big)}, {Op: "w", B: h(big)}}},
+		{Kind: "standard", Sub: "shell", Auth: "none", Via: "transport", Mode: "close-silent", N: 64, Steps: []c16Step{{Op: "s", B: ff}, {Op: "w", B: ff}}},
 		{Kind: "standard", Sub: "netconf", Auth: "none", Via: "impl", Mode: "peerclose", N: 16, Steps: []c16Step{{Op: "w", B: h("<hello/>]]>]]>")}, {Op: "s", B: h("<hello/>]]>]]>")}}},
 		{Kind: "system", Via: "impl", Mode: "close", N: 81, Initial: h(big[:8192]), Steps: []c16Step{{Op: "w", B: ff}, {Op: "w", B: h("\r\n\x03\x04\x11\x13\x1a\x1c\x7f")}}},
 		{Kind: "system", Via: "transport", Mode: "peerclose", N: 8192, Steps: []c16Step{{Op: "w", B: h(big[:8192*3+5])}}},
@@ -553,6 +557,10 @@ func runC16Case(id string, c *c16Case) {
 		if c.Kind != "system" { // the stand-in leaves by itself after the agreed byte count
 			peer.Hangup()
 		}
+	case "close-silent":
+		peer.Freeze()
+		time.Sleep(5 * time.Millisecond)
+		closeErr, closeReturned = closeClient()
 	default:
 		closeErr, closeReturned = closeClient()
 	}
